@@ -30,7 +30,7 @@ from vf.seedeval import baseline, run, PY
 
 FILEMAP = {
     'elftools/elf/elffile.py': ['C01', 'C02', 'C19', 'C11', 'C09'],
-    'elftools/elf/sections.py': ['C01', 'C02', 'C03', 'C14'],
+    'elftools/elf/sections.py': ['C01', 'C02', 'C03', 'C14', 'C20'],
     'elftools/elf/segments.py': ['C02', 'C01', 'C14'],
     'elftools/elf/hash.py': ['C03', 'C09'],
     'elftools/elf/dynamic.py': ['C09', 'C08'],
